@@ -106,6 +106,13 @@ def grid(ctx, rng):
             specs.append(dict(seed=ctx.seed + 5100 + k, maxdata=4096, rid='plus', frag='whole',
                               ops=[dict(api='push', src='dir', path='/sdcard/part%d' % k, files=[['a.txt', 10], ['b.bin', 5000], ['c.bin', 100]], cwd='elsewhere', mtime=5,
                                         plan=dict(where=where, k=0, reason='quota exceeded', nth=nth), read_timeout_s=2.0)]))
+    # the same with a service that sends the status of every accepted file twice: the surplus record of one file's stream is nobody's answer
+    for nth in (1, 2):
+        for where in ('SEND', 'DONE'):
+            k += 1
+            specs.append(dict(seed=ctx.seed + 5200 + k, maxdata=4096, rid='plus', frag='whole',
+                              ops=[dict(api='push', src='dir', path='/sdcard/twice%d' % k, files=[['a.txt', 10], ['b.bin', 5000], ['c.bin', 100]], cwd='elsewhere', mtime=5, surplus_okay=True,
+                                        plan=dict(where=where, k=0, reason='quota exceeded', nth=nth), read_timeout_s=2.0)]))
     # missing file (the device's own FAIL)
     specs.append(dict(seed=1, maxdata=4096, rid='plus', frag='whole', ops=[dict(api='pull', size=None, path='/missing', plan=dict(where=None, reason='No such file'), read_timeout_s=2.0)]))
     # status ids that are valid FileSync ids but not valid at that point
@@ -129,7 +136,8 @@ def reply_scripts(ctx):
                 continue
             reply_len = len(syncop.render('pull' if row['op'] == 'pullcb' else row['op'], row['script']))
             cuts = None if (i // 2) % 3 == 0 or reply_len < 2 else sorted({1 + (i * 7) % (reply_len - 1), 1 + (i * 13 + 5) % (reply_len - 1)})
-            obs = syncop.run_row(mode, row, cuts)
+            # a script that starts with the device closing the stream: every other time the close comes INSTEAD of the OKAY for the request
+            obs = syncop.run_row(mode, row, cuts, close_unacked=bool(row['script'] and row['script'][0] == 'CLSE' and (i // 2) % 2))
             n += 1
             clause = syncop.compare(row, obs)
             if clause:
